@@ -38,10 +38,10 @@ func C13() *runner.Property {
 		ID:    "C13",
 		Level: "exploration",
 		Rule: "one real sweeper pass (VerifSweepOnce) over generated LMDB contents: 1-4 DBIs of 2500-40000 entries (live entries, young markers, expired markers placed deliberately at record positions 998-1002, 1999-2001, ... and in runs spanning slice boundaries), lock_duration 1 ns so that a slice ends every 1000 records, release_duration 0-2 ms, fractional and whole retention_days; " +
-			"between slices (yield point outside any transaction) an application commits puts, young and expired marker writes and physical deletes on random keys and on the keys next to the slice boundaries (including the resume key). Oracle from byte dumps before/after, the writer's log and the wall-clock bracket [t0,t1] of the pass: untouched expired marker (ts < t0-R) must be gone; " +
-			"untouched live entry or marker with ts >= t1-R must be byte-identical; touched keys carry the writer's last write (an expired marker written by the writer may or may not be swept); markers inside the bracket are not judged. Non-native mode: application DBIs (arbitrary bytes incl. values that look like expired markers) byte-identical, only _sync* DBIs change. " +
+			"between slices (yield point outside any transaction) an application commits puts, young and expired marker writes and physical deletes on random keys and on the keys next to the slice boundaries (including the resume key). Runs of expired markers and the markers next to slice boundaries are byte-identical (one bulk deletion); a ladder of markers 0-2 s younger than the retention at setup time crosses the limit while the pass runs. Oracle from byte dumps before/after, the writer's log and the bracket of the instant at which the pass fixed its cutoff, [t0, end of its first slice]: untouched expired marker (ts < t0-R) must be gone; " +
+			"untouched live entry or marker with ts >= firstSliceEnd-R must be byte-identical however long the rest of the pass takes; touched keys carry the writer's last write (an expired marker written by the writer may or may not be swept); markers inside the bracket are not judged. Non-native mode: application DBIs (arbitrary bytes incl. values that look like expired markers) byte-identical, only _sync* DBIs change. " +
 			"Non-trivial = >= 2 slices and >= 1 expired marker and >= 1 protected entry.",
-		Assumptions: []string{"the exact boundary ts == cutoff is a 1 ns window that cannot be hit without replacing the clock: not judged", "retention computed independently as retention_days x 24h; tolerance 1 s + 2^-22 relative (the repository computes it in float32)"},
+		Assumptions: []string{"the exact boundary ts == cutoff is a 1 ns window that cannot be hit without replacing the clock: not judged", "retention computed independently as retention_days x 24h and compared with config.Sweeper.RetentionDuration() (tolerance 1 s + 2^-22 relative, float32); the bracket then uses the sweeper's own value so that it is exact"},
 		BatchSize:   3,
 		CaseTimeout: 240e9,
 		Cases: func(tier string, seed int64) []runner.Case {
@@ -112,9 +112,24 @@ func runC13(c runner.Case, env *runner.Env) (res runner.Result) {
 		}
 	}
 	nExpired, nProtected := 0, 0
+	// the retention the sweeper itself uses (float32 arithmetic); checked against the independent value, then used for
+	// the exact cutoff bracket of the ladder below
+	Rrepo := config.Sweeper{RetentionDays: p.RetDays}.RetentionDuration()
+	if d := Rrepo - R; d > tol || d < -tol {
+		res.Violate("retention-duration-wrong", fmt.Sprintf("retention_days %v gives %v, expected %v", p.RetDays, Rrepo, R), map[string]any{"params": p})
+		return
+	}
+	// ladder: markers that are a few milliseconds to 2 s YOUNGER than the retention when the setup starts. The pass
+	// fixes its cutoff when it begins; the ones that cross the limit while the pass is under way must survive it.
+	ladderTS := func() uint64 {
+		return uint64(start.Add(-Rrepo + time.Duration(r.Intn(2000000))*time.Microsecond).UnixNano())
+	}
+	nLadder := 0
 	_, err = lmdbx.Update(e, func(txn *lmdb.Txn) error {
 		for _, d := range sweptDBIs {
 			runUntil := -1
+			// one bulk deletion (one transaction, one timestamp): its markers are byte-identical
+			bulk := hdr.Make(expiredTS(), 3, 1, nil, nil)
 			for i := 0; i < p.Entries; i++ {
 				pos := i + 1 // 1-based record position
 				mod := pos % 1000
@@ -122,23 +137,29 @@ func runC13(c runner.Case, env *runner.Env) (res runner.Result) {
 				var v []byte
 				switch {
 				case i <= runUntil:
-					v = hdr.Make(expiredTS(), 3, 1, nil, nil)
+					v = bulk
 					nExpired++
 				case nearBoundary && r.Chance(2, 3):
-					v = hdr.Make(expiredTS(), 3, 1, nil, nil)
+					v = bulk
+					if r.Chance(1, 4) {
+						v = hdr.Make(expiredTS(), 3, 1, nil, nil)
+					}
 					nExpired++
 				case r.Chance(1, 300):
 					runUntil = i + 1 + r.Intn(40) // a run of expired markers
-					v = hdr.Make(expiredTS(), 3, 1, nil, nil)
+					v = bulk
 					nExpired++
 				default:
 					switch r.Intn(10) {
 					case 0, 1:
 						v = hdr.Make(expiredTS(), 3, 1, nil, nil)
 						nExpired++
-					case 2, 3:
+					case 2:
 						v = hdr.Make(youngTS(), 3, 1, nil, nil)
 						nProtected++
+					case 3:
+						v = hdr.Make(ladderTS(), 3, 1, nil, nil)
+						nLadder++
 					case 4:
 						// live entry with an old timestamp: must never be removed
 						v = hdr.Make(expiredTS(), 3, 0, nil, []byte("old-but-live"))
@@ -189,6 +210,7 @@ func runC13(c runner.Case, env *runner.Env) (res runner.Result) {
 
 	// the application writes between slices
 	var log []wlog
+	var firstSliceEnd time.Time
 	slices := 0
 	commitsBetween := 0
 	verifhook.Set(func(instance, point, detail string) {
@@ -196,6 +218,9 @@ func runC13(c runner.Case, env *runner.Env) (res runner.Result) {
 			return
 		}
 		slices++
+		if slices == 1 {
+			firstSliceEnd = time.Now()
+		}
 		if !p.Writer {
 			return
 		}
@@ -269,6 +294,7 @@ func runC13(c runner.Case, env *runner.Env) (res runner.Result) {
 	res.Count("writer_commits_between_slices", int64(commitsBetween))
 	res.Count("cleaned_by_sweeper", int64(st.NCleaned))
 	res.Count("expired_markers_placed", int64(nExpired))
+	res.Count("ladder_markers_placed", int64(nLadder))
 	res.Add("slices_per_pass", fmt.Sprint(st.NTxn))
 
 	touched := map[string]*wlog{}
@@ -277,8 +303,14 @@ func runC13(c runner.Case, env *runner.Env) (res runner.Result) {
 		touched[l.dbi+"\x00"+l.key] = &log[i]
 		res.Add("writer_write_kinds", l.kind)
 	}
-	cutLo := uint64(t0.Add(-R - tol).UnixNano()) // certainly expired below this
-	cutHi := uint64(t1.Add(-R + tol).UnixNano()) // certainly retained from this on
+	// The pass takes its cutoff once, after t0 and before the end of its first slice: [t0-R, firstSliceEnd-R] with the
+	// sweeper's own R (checked above). Everything from the upper end on must survive however long the pass takes.
+	if firstSliceEnd.IsZero() {
+		firstSliceEnd = t1
+	}
+	cutLo := uint64(t0.Add(-Rrepo).UnixNano())            // certainly expired below this
+	cutHi := uint64(firstSliceEnd.Add(-Rrepo).UnixNano()) // certainly retained from this on
+	crossLo, crossHi := cutHi, uint64(t1.Add(-Rrepo).UnixNano())
 	wit := func(extra string) map[string]any {
 		return map[string]any{"params": p, "detail": extra, "slices": st.NTxn, "retention": R.String(), "writer_log_len": len(log)}
 	}
@@ -317,7 +349,10 @@ func runC13(c runner.Case, env *runner.Env) (res runner.Result) {
 						what = "young deletion marker"
 					}
 					res.Violate("protected-entry-removed", fmt.Sprintf("dbi %s record #%d key %s: untouched %s (ts %v) was removed", d, idx+1, kv.K, what, time.Unix(0, int64(h.TS)).UTC()), wit(""))
-				} else if !bytes.Equal(got, kv.V) {
+				} else if h.Deleted() && h.TS >= crossLo && h.TS < crossHi {
+					res.Count("markers_that_expired_during_the_pass_and_survived", 1)
+				}
+				if present && !bytes.Equal(got, kv.V) {
 					res.Violate("protected-entry-altered", fmt.Sprintf("dbi %s key %s: untouched entry changed from %x to %x", d, kv.K, head(kv.V, 40), head(got, 40)), wit(""))
 				}
 			default:
